@@ -30,6 +30,7 @@ def _run(prog: Program, rep: Report, tier: str) -> None:
     rep.rule('C07-D3', 'mv / mm forward the semiring and use index strings that denote matrix-vector / matrix-matrix contraction')
     rep.rule('C07-D4', 'pointer width: at every return of the Viterbi variant the size of the pointer\'s last axis is the number of summed-out indices (the index map after the output pops, or the list of per-index pointers built from it), never the number of output axes nor the number of physical argmax coordinates of the raw library pointer; the literal 0 only on the empty-operand return')
     rep.rule('C07-D5', 'stride-0 reduction only for sum-free equations: in reduce_equation the operands are shrunk (as_strided) only when every variable of the equation is an output variable; with a summed-out variable the equation is handed on unchanged (a broadcast summed-out index contributes n identical terms and must not be dropped)')
+    rep.rule('C07-D7', 'Viterbi variant keeps 0 x inf = 0: products are formed by the semiring\'s clamped product, not by a kernel that adds log-weights with a plain + (known finding K3 on today\'s tree)')
     rep.rule('C07-D6', 'co-indexing covers every operand position: the loop that pairs an operand\'s virtual axes with its index list iterates zip(<t>.vaxes, <indices>) itself (no dict/set in between, which would drop a repeated index), is never left early (no break/return inside it or its enclosing operand loop), and on every path of an iteration either unifies the axis with the one already recorded for the index or records it')
     rep.not_decided += ['correctness of axis unification, projection strides, reduce_equation and argmax reconstruction (numerical / combinatorial)']
     rep.trusted += ['torch_semiring_einsum calls the callbacks as documented (extend.py)', 'transfer tables of sa/absint/domain.py']
@@ -41,6 +42,7 @@ def _run(prog: Program, rep: Report, tier: str) -> None:
     rep.floor('C07-D2 value constructors', n_ctor, 6)
     shorthands(rep, prog)
     co_indexing(rep, prog)
+    viterbi_product_convention(rep, prog)
     pointer_width(rep, prog)
     reduce_only_sum_free(rep, prog)
 
@@ -391,3 +393,20 @@ def co_indexing(rep: Report, prog: Program) -> None:
                 rep.ob(rule, f.fq(), f"for {norm(l.target)} in {norm(l.iter)[:70]}: each position is unified or recorded", f.loc(l), ok,
                        'every path of an iteration passes a unify(...) or a store into the index table' if ok else 'an iteration can finish without unifying or recording the axis')
     rep.floor('C07-D6', n, 1)
+
+
+def viterbi_product_convention(rep: Report, prog: Program) -> None:
+    """0 x inf = 0 in the Viterbi variant: the products must be formed by the semiring's clamped product (as in *.einsum, C07-D1).
+    A direct call of the library's log-viterbi kernel adds the log-weights with a plain `+`: -inf + inf = nan."""
+    rule = 'C07-D7 viterbi-product'
+    f = prog.func(IDX, 'log_viterbi_einsum_forward')
+    from ..util import helper_scopes
+    n = 0
+    for g, _ren in helper_scopes(prog, f):
+        for c in [x for x in own_nodes(g.node) if isinstance(x, ast.Call) and callee_last(x) == 'log_viterbi_einsum_forward' and isinstance(x.func, ast.Attribute)
+                  and norm(x.func.value).split('.')[0] == 'torch_semiring_einsum']:
+            n += 1
+            rep.ob(rule, f.fq(), 'products formed by the library\'s log-viterbi kernel (plain +)', g.loc(c), False,
+                   'torch_semiring_einsum.log_viterbi_einsum_forward adds the operands\' log-weights without the semiring\'s nan_to_num: an operand entry -inf (zero) '
+                   'meeting +inf in another operand gives nan instead of -inf, unlike einsum(..., ViterbiSemiring) on the same operands')
+    rep.analysed['library_viterbi_kernel_calls'] = n
